@@ -16,7 +16,7 @@ from mzverif.props import C08
 
 ID = "C04"
 LEVEL = "exploration"
-TECHNIQUE = "Hypothesis histories of perturbations (RNG draws / reseeds, other configs and datasets incl. near copies of the target, failing generations, direct generator calls, tokenization, filtering / serializing other datasets) between two observations + differential across fresh interpreters with different hash seeds and visiting orders + serial generation inside worker processes the caller created (fork / spawn pools, a thread); oracle = first observation, generate + list-model filters for from_config, config untouched (its fields read directly, not through the library serializer)"
+TECHNIQUE = "Hypothesis histories of perturbations (RNG draws / reseeds, other configs and datasets incl. near copies of the target, failing generations, direct generator calls, tokenization, filtering / serializing other datasets) between two observations + differential across fresh interpreters with different hash seeds and visiting orders + serial generation inside worker processes the caller created (fork / spawn pools, a thread); oracle = first observation, generate + list-model filters for from_config, config untouched (its fields read directly, not through the library serializer); reference from the plainly constructed configuration vs. objects edited in place after being serialized / named / hashed; verbose calls"
 RULE = (
     "case = (target configuration spec, history of perturbing operations, observation route generate|from_config, fresh or reused "
     "config object). Perturbations: python random draws/re-seed, numpy global draws/re-seed, torch seed/draw, constructing other "
